@@ -143,6 +143,19 @@ void gen_c18(Plan &p, Rng &r, bool thorough) {
         fa.c = r.range(2, 32);
         t.ops.push_back(fa);
       }
+      if (r.chance(1, 5)) {
+        // binary output of this caller's code into this caller's own file
+        Op so = mk(OP_OFFSET, 0);
+        so.k = 0;
+        t.ops.push_back(so);
+        Op a = mk(OP_ASM, 0);
+        int nl3 = (int)r.range(1, 40);
+        for (int q = 0; q < nl3; q++) a.lines.push_back(any_instr(r));
+        t.ops.push_back(a);
+        Op b = mk(OP_BIN_FILE, 0);
+        b.path = "/sim/t" + std::to_string(ti) + "_" + std::to_string(l) + ".bin";
+        t.ops.push_back(b);
+      }
       t.ops.push_back(mk(OP_DESTROY, 0));
     }
     p.tasks.push_back(t);
@@ -284,13 +297,16 @@ void gen_c20(Plan &p, Rng &r, bool thorough) {
         invalid = false;
     }
     if (print) flags.push_back(r.coin() ? "-p" : "--print");
+    // the size is documented as a decimal number; leading zeros and a plus sign do not change a decimal number
+    std::string Ntext = std::to_string(N);
+    if (N > 1 && r.chance(1, 8)) Ntext = (r.coin() ? "0" : r.coin() ? "00" : "+") + Ntext;
     if (fitting) {
       flags.push_back(r.coin() ? "-c" : "--chunk");
-      flags.push_back(std::to_string(N));
+      flags.push_back(Ntext);
     }
     if (counting) {
       flags.push_back(r.coin() ? "-b" : "--breaks");
-      flags.push_back(std::to_string(N));
+      flags.push_back(Ntext);
     }
     if (run && !rnd) {
       static const char *rf[] = {"-r=3", "-r3", "--return=2", "-r17"};
